@@ -49,7 +49,7 @@ impl core::fmt::Debug for CoreError { fn fmt(&self, f: &mut core::fmt::Formatter
 /// what `list_secret_files` can see of one directory entry: the final path component (std `Path::file_name`;
 /// `None` only for a path ending in `..`, which `read_dir` never yields) and whether it is a regular file
 /// (`Path::is_file`, follows symlinks)
-pub struct EntryV { pub name: Option<Seq<char>>, pub is_file: bool }
+pub struct EntryV { pub name: Option<Seq<char>>, pub is_file: bool, pub is_dir: bool, pub path: Seq<char> }
 
 /// std `Path::file_stem` as a function of the file name (library/std/src/path.rs): the name up to the LAST `.`;
 /// the whole name if there is no `.` or the only one is leading.  Left uninterpreted except for `axiom_stem_no_dot`.
@@ -76,7 +76,7 @@ impl PathBuf {
     pub fn is_file(&self) -> (b: bool) ensures b == self.entry().is_file, { unimplemented!() }
     /// `Path::is_dir`
     #[verifier::external_body]
-    pub fn is_dir(&self) -> (b: bool) { unimplemented!() }
+    pub fn is_dir(&self) -> (b: bool) ensures b == self.entry().is_dir, { unimplemented!() }
     /// `Path::file_name`: the final component
     #[verifier::external_body]
     pub fn file_name(&self) -> (r: Option<&OsStr>)
@@ -104,7 +104,7 @@ impl DirEntry {
     pub uninterp spec fn ev(&self) -> EntryV;
     /// `DirEntry::path`: the full path of the entry
     #[verifier::external_body]
-    pub fn path(&self) -> (r: PathBuf) ensures r.entry() == self.ev(), { unimplemented!() }
+    pub fn path(&self) -> (r: PathBuf) ensures r.entry() == self.ev(), r@ == self.ev().path, { unimplemented!() }
 }
 /// tokio `fs::ReadDir`: the entries not yet yielded
 #[verifier::external_body]
@@ -142,3 +142,26 @@ pub fn parse_external_file_name(x: &OsStr) -> (r: core::result::Result<ExternalF
     ensures r.is_ok() == parse_name(x@).is_some(), r.is_ok() ==> r.unwrap()@ == parse_name(x@).unwrap(),
 { unimplemented!() }
 /// R12 `$x.to_string_lossy().as_ref()` in the warning of a skipped file: dropped with the tracing call (R2)
+
+// ---- the secret directories of a folder (list_folder) -----------------------------------------------------
+/// whether something exists at a path (tokio `fs::try_exists`; ghost, frozen during the call)
+pub uninterp spec fn path_exists(p: Seq<char>) -> bool;
+/// R12 `vfs::try_exists($p)`
+#[verifier::external_body]
+pub fn vtry_exists(p: &PathBuf) -> (r: core::result::Result<bool, IoError>)
+    ensures r matches Ok(b) ==> b == path_exists(p@),
+{ unimplemented!() }
+/// `SecretId` = uuid::Uuid (uuid 1.x), viewed as its 16 bytes
+#[verifier::external_body]
+pub struct SecretId { _p: () }
+impl View for SecretId { type V = Seq<u8>; uninterp spec fn view(&self) -> Seq<u8>; }
+/// `Uuid::from_str` (uuid 1.x src/parser.rs): which texts are uuids and their bytes — uninterpreted
+pub uninterp spec fn parse_uuid(s: Seq<char>) -> Option<Seq<u8>>;
+pub struct UuidError { pub _p: () }
+#[verifier::external]
+impl core::fmt::Debug for UuidError { fn fmt(&self, f: &mut core::fmt::Formatter<'_>) -> core::fmt::Result { Ok(()) } }
+/// R12 `$x.to_string_lossy().as_ref().parse::<SecretId>()` -> `parse_secret_id($x)`
+#[verifier::external_body]
+pub fn parse_secret_id(x: &OsStr) -> (r: core::result::Result<SecretId, UuidError>)
+    ensures r.is_ok() == parse_uuid(x@).is_some(), r.is_ok() ==> r.unwrap()@ == parse_uuid(x@).unwrap(),
+{ unimplemented!() }
